@@ -15,7 +15,7 @@ FORMAT = ("script [inj_kind 0=NoErrorInjection 1=CustomErrorFn; error_rate f64 b
 RULE = ("random configurations: rates from {0, -0, 1, 1/2, 2^-53, 2^-54, subnormal, 1-2^-53, >1, inf, negative, NaN, "
         "random in [0,1]} x latency bounds in microseconds (min<max, min=max, min>max, same millisecond, zero) x "
         "random and special seeds x 1..12 overlapping requests with ok/err inner outcomes; the draw stream is the "
-        "implementation's own log (oracle); non-trivial = at least one error or latency injected")
+        "implementation's own log (oracle); rates exactly equal to / one ulp around the first roll of the seed; non-trivial = at least one error or latency injected")
 TRUSTED = ["verif hook in /repo (feature verif-hooks): log_draw(kind, bits) after each RNG draw in chaos/src/service.rs",
            "gen/c19.py model_input: copies the logged draw values from the implementation trace to the model's oracle"]
 ASSUMPTIONS = ["rand 0.9: Rng::random::<f64>() returns k/2^53 in [0,1) (src/distr/float.rs, multiply-based method) — "
@@ -103,8 +103,47 @@ def rand_script(rng, nmax=12):
     return mk(inj, eb, lb, mn, mx, seed, tail, reqs)
 
 
-def generate(rng, tier):
+def probe_first_draw(scripts):
+    """runs the real driver to learn the first logged draw of each script (None if unavailable)"""
+    import os, subprocess
+    root = os.path.dirname(os.path.dirname(os.path.abspath(__file__)))
+    exe = os.path.join(os.environ.get("VERIF_TARGET_DIR", os.path.join(root, "harness", "target")), "release", DRIVER)
+    if not os.path.exists(exe) or not scripts:
+        return [None] * len(scripts)
+    try:
+        r = subprocess.run([exe], input="\n".join(" ".join(map(str, s)) for s in scripts) + "\n",
+                           stdout=subprocess.PIPE, stderr=subprocess.DEVNULL, text=True, timeout=120)
+        res = []
+        for s, l in zip(scripts, r.stdout.split("\n")):
+            d = decode(s, [int(x) for x in l.split()])
+            res.append(d[2][0] if d and d[2] else None)
+        return res + [None] * (len(scripts) - len(res))
+    except Exception:
+        return [None] * len(scripts)
+
+
+def boundary_scripts(rng, k):
+    """rates equal to (and one ulp above) the first roll the seeded RNG will produce: the comparisons
+    roll < rate / roll >= rate are exercised exactly at equality. The first roll is learnt by running
+    the real driver once with rate 1 (a probe; it only chooses inputs, the check itself is unchanged)."""
+    r3 = [(0, 0, 10), (1, 1, 11), (0, 0, 12)]
+    seeds = [rng.getrandbits(64) for _ in range(k)]
+    probes_e = [mk(1, ONE, 0, 2000, 6000, sd, 8, r3) for sd in seeds]
+    probes_l = [mk(0, 0, ONE, 2000, 6000, sd, 8, r3) for sd in seeds]
     out = []
+    for sd, be, bl in zip(seeds, probe_first_draw(probes_e), probe_first_draw(probes_l)):
+        if be is not None and be > 0:
+            for eb in (be, be + 1, be - 1):
+                out.append(mk(1, eb, 0, 2000, 6000, sd, 8, r3))
+                out.append(mk(1, eb, ONE, 2000, 6000, sd, 8, r3))
+        if bl is not None and bl > 0:
+            for lb in (bl, bl + 1, bl - 1):
+                out.append(mk(0, 0, lb, 2000, 6000, sd, 8, r3))
+    return out
+
+
+def generate(rng, tier):
+    out = boundary_scripts(rng, 40 if tier == "quick" else 400)
     r2 = [(0, 0, 10), (0, 1, 11), (2, 0, 12)]
     # grid of the special rates (both injector kinds) with a few bounds
     grid = SPECIAL_RATES if tier == "thorough" else SPECIAL_RATES[:9] + [SPECIAL_RATES[12]]
